@@ -191,3 +191,9 @@ Theorem sd_refines : forall ks vs ops,
 Proof.
   intros ks vs ops Hok. apply sd_refines_gen; [apply SCoh_init|exact Hok].
 Qed.
+
+(* The restriction is necessary here too. *)
+Example sd_empty_tuple_counterexample :
+  view_okb (hd (sview [] [] sd_empty false) (srun [0] [0] sd_empty [OSet [] 0]))
+           (hd (sview [] [] sd_empty false) (arun true [0] [0] ainit [OSet [] 0])) = false.
+Proof. vm_compute. reflexivity. Qed.
